@@ -246,7 +246,7 @@ func TestBatch(t *testing.T) {
 		}
 		cur := *c
 		min := false
-		if sim {
+		if sim && len(res.Found) < 3 {
 			cur.Policy = simctl.Policy{Kind: "recorded"}
 			cur.Picks = append([]int(nil), o.Sim.Picks...)
 			evals := 0
